@@ -200,6 +200,14 @@ def run_case(case, ctx):
             for name, uf in COMP:
                 _binary(ctx, SA, name, R, rk, uf(A, B), exact=False)
         if ordk == orders[-1]:
+            ctx.feat(same_object=True)
+            for name, uf in ARITH[:3]:
+                _binary(ctx, SA, name, SA, "sptensor", uf(A, A), exact=True, AB=(A, A))
+            for name, uf in LOGIC:
+                _binary(ctx, SA, name, SA, "sptensor", uf(A != 0, A != 0), exact=False)
+            for name, uf in COMP:
+                _binary(ctx, SA, name, SA, "sptensor", uf(A, A), exact=False)
+            ctx.feat(same_object=None)
             r = ctx.call("sptensor.logical_not", SA.logical_not)
             _judge(ctx, "sptensor.logical_not", r, "-", np.logical_not(A != 0), exact=False)
             c = float(SCALARS[gen.pick(case) % len(SCALARS)])
@@ -326,6 +334,13 @@ def _typed_block(case, ctx, rng, A, B, shape):
                     exact_ = (name, uf) in list(ARITH[:3])
                     r = ctx.call("sptensor." + name, getattr(SN, name), R_)
                     _judge(ctx, "sptensor." + name, r, rk_, uf(An, Bn_), exact=exact_, AB=((An, Bn_) if exact_ else None), both_nonfinite=True)
+            # both operands are one and the same object (R = S / 0; R - R): inf - inf and NaN - NaN are NaN, x == x is false for NaN
+            ctx.feat(same_object=True)
+            for name, uf in list(ARITH[:3]) + list(COMP):
+                exact_ = (name, uf) in list(ARITH[:3])
+                r = ctx.call("sptensor." + name, getattr(SN, name), SN)
+                _judge(ctx, "sptensor." + name, r, "sptensor", uf(An, An), exact=exact_, AB=((An, An) if exact_ else None), both_nonfinite=True)
+            ctx.feat(same_object=None)
             r = ctx.call("sptensor.__neg__", operator.neg, SN)
             _judge(ctx, "sptensor.__neg__", r, "-", -An, exact=True)
             r = ctx.call("sptensor.__truediv__", operator.truediv, SN, 2.0)
